@@ -26,6 +26,8 @@ type Obligation struct {
 	Note   string
 	// Cover obligations are expected to be SAT (vacuity guards).
 	Cover bool
+	// Deep obligations are only decided in the thorough tier (and by `govc verify -deep`).
+	Deep bool
 	Group string
 	unit  *VC
 }
